@@ -157,6 +157,19 @@ func verOK(got string, want []string) bool {
 	return false
 }
 
+// bigLens straddle the 1 MiB threshold above which pbcmpl.Unmarshal reads the
+// body incrementally (a tuning constant of the library: correctness must not
+// depend on which side of it a frame falls). The encoded body of a BytesValue
+// is the payload plus 4 bytes here, a legacy message is the payload itself.
+var bigLens = []int{1<<20 - 40, 1<<20 - 4, 1<<20 - 3, 1 << 20, 1<<20 + 1, 1<<20 + 1000, 1<<20 + 70000, 2<<20 + 5}
+
+// genBigMsg draws a message whose body is around or above 1 MiB.
+func genBigMsg(r *engine.PRNG) MsgSpec {
+	m := genMsg(r, 100)
+	m.Len = bigLens[r.Intn(len(bigLens))]
+	return m
+}
+
 // genMsg draws one message spec.
 func genMsg(r *engine.PRNG, maxLen int) MsgSpec {
 	m := MsgSpec{Seed: r.Uint64()}
